@@ -79,6 +79,20 @@ for s_, T in FT:
     add('rotate_' + s_, [(T, 16), (T, 1), (T, 3)], [(T, 16)], 'stm(o, glm::rotate(%s(a), b[0], ldv<3,%s>(c)));' % (M4, T))
     add('lookat_' + s_, [(T, 3), (T, 3), (T, 3)], [(T, 16)], 'stm(o, glm::lookAt(ldv<3,%s>(a), ldv<3,%s>(b), ldv<3,%s>(c)));' % (T, T, T))
     add('proj_' + s_, [(T, 6)], [(T, 16)] * 4, 'stm(o, glm::ortho(a[0], a[1], a[2], a[3], a[4], a[5])); stm(o2, glm::frustum(a[0], a[1], a[2], a[3], a[4], a[5])); stm(o3, glm::perspective(a[0], a[1], a[2], a[3])); stm(o4, glm::infinitePerspective(a[0], a[1], a[2]));')
+    # every fully- and half-suffixed clip-space builder (each is a separate function body with its own temporaries / constructor calls)
+    for hv in ('RH_ZO', 'RH_NO', 'LH_ZO', 'LH_NO', 'RH', 'LH', 'ZO', 'NO'):
+        add('projv_%s_%s' % (hv, s_), [(T, 6)], [(T, 16)] * 4, 'stm(o, glm::ortho%s(a[0], a[1], a[2], a[3], a[4], a[5])); stm(o2, glm::frustum%s(a[0], a[1], a[2], a[3], a[4], a[5])); stm(o3, glm::perspective%s(a[0], a[1], a[2], a[3])); stm(o4, glm::perspectiveFov%s(a[0], a[1], a[2], a[3], a[4]));' % ((hv,) * 4))
+    for hv in ('RH_ZO', 'RH_NO', 'LH_ZO', 'LH_NO'):
+        add('projinf_%s_%s' % (hv, s_), [(T, 4)], [(T, 16)], 'stm(o, glm::infinitePerspective%s(a[0], a[1], a[2]));' % hv)
+    add('projmisc_' + s_, [(T, 7)], [(T, 16)] * 4, 'stm(o, glm::tweakedInfinitePerspective(a[0], a[1], a[2])); stm(o2, glm::tweakedInfinitePerspective(a[0], a[1], a[2], a[3])); stm(o3, glm::ortho(a[0], a[1], a[2], a[3])); stm(o4, glm::pickMatrix(ldv<2,%s>(a), ldv<2,%s>(a+2), ldv<4,%s>(a+3)));' % (T, T, T),
+        lambda i: [z3.fpGT(fpof(i[0][2]), FPV(0.0, i[0][2].size())), z3.fpGT(fpof(i[0][3]), FPV(0.0, i[0][3].size()))])
+    add('unproject_' + s_, [(T, 3), (T, 16), (T, 16), (T, 4)], [(T, 3)] * 3, 'stv(o, glm::unProject(ldv<3,%s>(a), %s(b), %s(c), ldv<4,%s>(d))); stv(o2, glm::unProjectZO(ldv<3,%s>(a), %s(b), %s(c), ldv<4,%s>(d))); stv(o3, glm::projectNO(ldv<3,%s>(a), %s(b), %s(c), ldv<4,%s>(d)));' % (T, M4, M4, T, T, M4, M4, T, T, M4, M4, T))
+    # conversions between element types and construction forms of quaternions (separate constructor bodies per memory order)
+    OT = 'double' if T == 'float' else 'float'
+    add('qconv_' + s_, [(T, 4), (T, 9)], [(OT, 4), (T, 4), (T, 4)], 'stq(o, glm::qua<%s>(%s(a))); stq(o2, glm::qua<%s>(ldm<3,3,%s>(b))); stq(o3, glm::qua<%s>::wxyz(a[0], a[1], a[2], a[3]));' % (OT, Q, T, T, T))
+    add('qmat4_' + s_, [(T, 16)], [(T, 4), (T, 16)], 'glm::qua<%s> q = glm::quat_cast(%s(a)); stq(o, q); stm(o2, glm::mat4_cast(q));' % (T, M4))
+    add('vconv_' + s_, [(T, 4)], [(OT, 4), ('int32_t', 3), ('uint32_t', 2)], 'stv(o, glm::vec<4,%s>(ldv<4,%s>(a))); stv(o2, glm::ivec3(ldv<4,%s>(a))); stv(o3, glm::uvec2(glm::abs(ldv<3,%s>(a))));' % (OT, T, T, T),
+        lambda i: [z3.And(z3.Not(is_nan(x)), z3.fpLT(z3.fpAbs(fpof(x)), FPV(2.0 ** 31, x.size()))) for x in i[0]])
     add('project_' + s_, [(T, 3), (T, 16), (T, 16), (T, 4)], [(T, 3)], 'stv(o, glm::project(ldv<3,%s>(a), %s(b), %s(c), ldv<4,%s>(d)));' % (T, M4, M4, T))
 add('bits_f', [('float', 1), ('int32_t', 1)], [('int32_t', 1), ('uint32_t', 1), ('float', 2)], 'o[0] = glm::floatBitsToInt(a[0]); o2[0] = glm::floatBitsToUint(a[0]); o3[0] = glm::intBitsToFloat(b[0]); o3[1] = glm::uintBitsToFloat(glm::uint(b[0]));')
 add('fdist_f', [('float', 2)], [('int32_t', 1)], 'o[0] = glm::floatDistance(a[0], a[1]);')
@@ -179,13 +193,13 @@ def job_cfg(cfg, names):
     def run(S):
         ub = UNITS[cfg]
         for fn in names:
-            S.diff_fn(B, ub, fn, PRE.get(fn), name='c15.%s.%s' % (cfg, fn), known=known_for(cfg, fn), timeout=S.cap(40, 120), solver=solver_for(fn), label_a='baseline', label_b=cfg,
+            S.diff_fn(B, ub, fn, PRE.get(fn), name='c15.%s.%s' % (cfg, fn), known=known_for(cfg, fn), timeout=S.cap(150, 300), solver=solver_for(fn), label_a='baseline', label_b=cfg,
                       bounds='all argument values; configuration %s = %s' % (cfg, ' '.join(CFG[cfg])))
     return run
 def job_opt(opt, names):
     def run(S):
         for fn in names:
-            S.diff_fn(B, B, fn, PRE.get(fn), name='c15.%s.%s' % (opt[1:], fn), opt_a='-O1', opt_b=opt, timeout=S.cap(40, 120), solver=solver_for(fn), label_a='-O1', label_b=opt, bounds='all argument values; clang %s vs -O1' % opt)
+            S.diff_fn(B, B, fn, PRE.get(fn), name='c15.%s.%s' % (opt[1:], fn), opt_a='-O1', opt_b=opt, timeout=S.cap(150, 300), solver=solver_for(fn), label_a='-O1', label_b=opt, bounds='all argument values; clang %s vs -O1' % opt)
     return run
 
 def jobs(tier):
